@@ -565,6 +565,10 @@ impl<E: Copy + Debug> Getter<State, E> for Terminal<'_, E> {
     fn get(&self) -> Output<State, E> {
         let mut addends: [core::mem::MaybeUninit<Datum<State>>; 2] =
             [core::mem::MaybeUninit::uninit(); 2];
+        #[cfg(rrtk_verif)]
+        unsafe {
+            core::ptr::write_bytes(addends.as_mut_ptr(), 0x7F, 2);
+        }
         let mut addend_count = 0usize;
         match self.get_last_request() {
             Some(state) => {
